@@ -119,8 +119,15 @@ class fetcher(base.fetcher):
             except errors.MissingDistfile as exc:
                 command = self.command
                 last_exc = exc
-            except errors.ChksumFailure:
-                raise
+            except errors.ChksumFailure as exc:
+                # corrupted or oversized: nothing to resume, drop it and use the
+                # remaining attempts (and uris) for a fresh fetch
+                last_exc = exc
+                try:
+                    os.unlink(path)
+                    command = self.command
+                except OSError as e:
+                    raise errors.UnmodifiableFile(path, e) from e
             except errors.FetchFailed as exc:
                 last_exc = exc
                 if not exc.resumable:
